@@ -259,6 +259,15 @@ def execute(case):
                    "R=%s exceeds the constructed unfolding ranks %s (eps=%g)" % (R, ub, eps))
     binding = caps is not None and any(R[k] >= caps[k] for k in range(1, d))
     if binding:
+        # a rank that merely equals its cap is not a truncation by rmax: the cap binds only if the same call without rmax
+        # returns a larger rank somewhere (then, and only then, the statement withdraws the accuracy clause)
+        kw_free = {k_: v_ for k_, v_ in kw.items() if k_ != "rmax"}
+        try:
+            xf = lib(lambda: T.TT(src, shape, **kw_free) if shape is not None else T.TT(src, **kw_free))
+            binding = any(int(xf.R[k]) > caps[k] for k in range(1, d))
+        except core.LibraryException:
+            pass
+    if binding:
         ck.label("rmax_binding")
     truncated = [R[k] < dimcap[k] for k in range(1, d)]
     if truncated and all(truncated):
